@@ -279,6 +279,7 @@ func monC08(c *drv.Ctx) {
 		type item struct {
 			raw, enc []byte
 			t        byte
+			bad      bool // a malformed value of known length (a frame the peer garbled): rejected, then stepped over by the caller
 		}
 		var items []item
 		var stream []byte
@@ -294,6 +295,19 @@ func monC08(c *drv.Ctx) {
 				}
 				items = append(items, item{raw: raw})
 				stream = append(stream, raw...)
+				continue
+			}
+			if r.Intn(6) == 0 {
+				// well-formed up to its second element, whose size is negative
+				bad := ref.EncString(ref.EncListBegin(nil, ref.STRING, 2), string(gen.Bytes(r, r.Intn(9))))
+				bad = append(ref.U32(bad, 0xfffffff0-uint32(r.Intn(8))), gen.Bytes(r, 4)...)
+				if r.Intn(2) == 0 {
+					bad = append(ref.EncFieldBegin(ref.EncI32(ref.EncFieldBegin(nil, ref.I32, 1), 5), ref.LIST, 2), bad...)
+					items = append(items, item{enc: bad, t: ref.STRUCT, bad: true})
+				} else {
+					items = append(items, item{enc: bad, t: ref.LIST, bad: true})
+				}
+				stream = append(stream, bad...)
 				continue
 			}
 			t := ref.KnownTypes[r.Intn(len(ref.KnownTypes))]
@@ -370,7 +384,7 @@ func monC08(c *drv.Ctx) {
 				cs.C.DontCare("shared-reader-boundary-zone")
 				return
 			}
-			if kind == 1 && r.Intn(3) == 0 {
+			if kind == 1 && !it.bad && r.Intn(3) == 0 {
 				// the stream codec's own skip on the same reader, judged by what it consumed
 				br := thrift.NewBufferReader(rd)
 				before := rd.ReadLen()
@@ -408,6 +422,16 @@ func monC08(c *drv.Ctx) {
 				return
 			}
 			if !pr.OK {
+				if it.bad {
+					// the caller knows from its framing how long the garbled value is and steps over it
+					if err := rd.Skip(len(it.enc)); err != nil {
+						cs.Fail("shared-reader-direct-read", nil, M{"item": k, "stream_offset": pos, "message": fmt.Sprintf("stepping over a rejected value of %d bytes failed: %v (the rejection must have consumed nothing)", len(it.enc), err)})
+						return
+					}
+					pos += len(it.enc)
+					cs.C.Obs("rejected values stepped over, decoder used again", 1)
+					continue
+				}
 				cs.C.Obs("cut-short values rejected by a decoder sharing its reader", 1)
 				break
 			}
